@@ -1,6 +1,7 @@
 (* C13 — timeline.  Headline theorems only; lemmas in Proofs/TimelineProofs.v; model Model/Timeline.v.
    Times are 10 s slots since year 1; st_get calls tl_generate on the range rounded by s_normalize_unix. *)
-From Pyro Require Import Model.Base Model.Segment Model.Timeline Proofs.SegmentProofs Proofs.SegStruct Proofs.TimelineProofs.
+From Pyro Require Import Model.Base Model.Tree Model.Segment Model.Timeline Model.Storage Proofs.SegmentProofs Proofs.SegStruct
+  Proofs.TimelineProofs Proofs.StorageProofs Proofs.StorageCounters.
 Local Open Scope Z_scope.
 
 Theorem C13_shape_start : forall a b, tl_st (tl_generate a b) = a.
@@ -78,6 +79,59 @@ Proof.
     assert (E' : s_root (fst (run_writes ex_ws)) = Some (lvl, n)) by exact E. vm_compute in E'. injection E' as <- <-.
     split; [vm_compute; reflexivity|]. vm_compute. reflexivity.
   - vm_compute in E. discriminate.
+Qed.
+
+(* C13_entries, one series, 10 s buckets: for every history of single-slot uploads with sample totals
+   < 2^53 inside one epoch block, entry k of the timeline of [a,b) is 0 when no upload sits at slot a + k,
+   and otherwise 1 + the samples of the uploads at that slot *)
+Theorem C13_entries_single_series : forall K ws a b, Forall (valid_write K) ws -> single_slot ws ->
+  Forall (fun w => (w_smp w < 2 ^ 53)%N) ws -> a < b -> tl_lvl (tl_generate a b) = O ->
+  forall k, (k < Z.to_nat (b - a))%nat ->
+  nth k (tl_samples (tl_populate (fst (run_writes ws)) (tl_generate a b))) 0%N =
+  match at_slot (a + Z.of_nat k) ws with
+  | [] => 0%N
+  | l => (1 + smp_sum l)%N
+  end.
+Proof. exact entries_single_series. Qed.
+Print Assumptions C13_entries_single_series.
+
+(* C13_entries at storage level (10 s buckets, i.e. ranges up to 10240 slots): the timeline returned by
+   st_get starts at the rounded range start, has one entry per slot, and entry k is 0 when no upload into a
+   matching series sits at slot a + k, otherwise 1 + the total samples of those uploads (the uploads are
+   listed series by series: ws kb [] pis are the uploads into series kb, w_smp = the profile's total) *)
+Theorem C13_entries : forall K pis sel from until out,
+  Forall (single_put K) pis -> Forall small_total pis ->
+  let ab := s_normalize_unix (from, until) in
+  fst ab < snd ab -> tl_lvl (tl_generate (fst ab) (snd ab)) = O ->
+  st_get sel from until (st_after pis) = Some out ->
+  tl_st (go_timeline out) = fst ab /\ length (tl_samples (go_timeline out)) = Z.to_nat (snd ab - fst ab) /\
+  forall k, (k < Z.to_nat (snd ab - fst ab))%nat ->
+    nth k (tl_samples (go_timeline out)) 0%N =
+    entry_of (concat (map (fun ks => at_slot (fst ab + Z.of_nat k) (ws (sid_key (fst ks)) [] pis)) (st_matching sel (st_after pis)))).
+Proof. exact timeline_entries. Qed.
+Print Assumptions C13_entries.
+
+(* Not proved: the coarse buckets (tl_lvl >= 1), where an entry is assembled from the nodes one level below
+   the bucket size, and uploads spanning 2..9 slots (binary64 shares); both are carried by CorrC13 only. *)
+
+Example C13_entries_storage_nonvacuous :
+  let mk := fun (s : sid) (f : Z) (v : N) =>
+    {| pi_sid := s; pi_from := f; pi_until := f + 10; pi_tree := t_insert [97]%N v t_empty;
+       pi_meta := {| m_spy := []; m_rate := 100%N; m_units := []; m_agg := [115;117;109]%N |} |} in
+  let s1 := {| sid_key := [97;123;120;61;49;125]%N; sid_app := [97]%N; sid_tags := [([120], [49])]%N |} in
+  let s2 := {| sid_key := [97;123;120;61;50;125]%N; sid_app := [97]%N; sid_tags := [([120], [50])]%N |} in
+  let sel := {| sid_key := [97;123;125]%N; sid_app := [97]%N; sid_tags := [] |} in
+  let pis := [mk s1 1600000000 5%N; mk s2 1600000000 7%N; mk s1 1600000020 2%N] in
+  Forall (single_put 63) pis /\ Forall small_total pis /\
+  match st_get sel 1600000000 1600000040 (st_after pis) with
+  | Some out => tl_samples (go_timeline out) = [13; 0; 3; 0]%N
+  | None => False
+  end.
+Proof.
+  cbv zeta. split; [|split].
+  - repeat (apply Forall_cons; [split; [apply exact_putb_ok; vm_compute; reflexivity|vm_compute; reflexivity]|]). apply Forall_nil.
+  - repeat (apply Forall_cons; [vm_compute; reflexivity|]). apply Forall_nil.
+  - vm_compute. reflexivity.
 Qed.
 
 Example C13_shape_nonvacuous :
